@@ -282,7 +282,7 @@ def gen():
             w("  proof { lemma_%s_len_%s(p0, properties);%s }" % (name, q, extra))
         w("@before `let last = properties . user_properties . last ( )`")
         w("  proof { lemma_%s_len_UserProperty(p0, properties, user_property); }" % name)
-        w("@before `if property_len as usize != len {`")
+        w("@before `if property_len as usize`")
         w("  proof { lemma_%s_head(reader.stream(), property_len as nat, len as nat, properties, used, %s); }" % (name, pt))
         w("@end")
         w("")
